@@ -199,10 +199,12 @@ def ret_cases(tier, seed):
                 i = ids.index(j)
                 f.add_market(market_id=j, initial=100.0 * (i + 1), drift=drifts[i] / 1024.0, volatility=vols[i] / 64.0)
         corr = [[sum(a * b for a, b in zip(rows[i], rows[j])) for j in range(k)] for i in range(k)]
+        first_named = {}
         for i in range(k):
             for j in range(i + 1, k):
                 if corr[i][j] != 0:
                     x, y = (ids[i], ids[j]) if rng.random() < 0.5 else (ids[j], ids[i])    # a pair may be named in either order
+                    first_named[(i, j)] = (x, y)
                     if rng.random() < 0.5:
                         # earlier settings of the same pair, in both orientations: the LAST setting is the one in force
                         f.set_correlation(x, y, 0.125)
@@ -243,6 +245,27 @@ def ret_cases(tier, seed):
             obs2 = [[int(round(math.log(prices2[i][s + 1] / prices2[i][s]) * 1e6)) for i in range(k)] for s in range(steps)]
             out.append({"c": "ret", "den": den, "rows": rows, "corr": corr, "vols": vols2, "drifts": drifts2,
                         "zs": [zs[(c0 + s) % len(zs)] for s in range(steps)], "obs": obs2})
+            alts = [(d2, r2) for d2, r2 in ROWSETS if len(r2) == k and r2 != rows]
+            if alts and k >= 2 and rng.random() < 0.7:
+                # ... and then the CORRELATIONS change at the last delivered time, every pair named in the opposite order to
+                # the one it was last set with: the returns after it follow the new correlations
+                den3, rows3 = rng.choice(alts)
+                corr3 = [[sum(a * b for a, b in zip(rows3[i], rows3[j])) for j in range(k)] for i in range(k)]
+                t1 = t0 + steps
+                try:
+                    for i in range(k):
+                        for j in range(i + 1, k):
+                            x, y = first_named.get((i, j), (ids[i], ids[j]))
+                            f.set_correlation(y, x, corr3[i][j] / float(den3 * den3), time=t1)      # ONLY the opposite order
+                    c1 = f._np_prng.calls
+                    prices3 = {i: f.get_fundamental_prices(market_id=ids[i], times=range(t1, t1 + steps + 1)) for i in range(k)}
+                except Exception as ex:  # noqa: BLE001
+                    out.append({"c": "stat", "what": "correlation-change-raised-" + type(ex).__name__, "ok": False})
+                    continue
+                out.append({"c": "stat", "what": "value-at-change-time-altered", "ok": all(prices3[i][0] == prices2[i][steps] for i in range(k))})
+                obs3 = [[int(round(math.log(prices3[i][s + 1] / prices3[i][s]) * 1e6)) for i in range(k)] for s in range(steps)]
+                out.append({"c": "ret", "den": den3, "rows": rows3, "corr": corr3, "vols": vols2, "drifts": drifts2,
+                            "zs": [zs[(c1 + s) % len(zs)] for s in range(steps)], "obs": obs3})
     return out
 
 
